@@ -175,9 +175,13 @@ class EventModel:
         for bb, t in bi.calls():
             c = t.callee
             if c.path == "tonic::Status::invalid_argument":
-                # direct construction inside a closure: `map_err(|_| Status::invalid_argument(..))` is a conversion
-                # of a failed *conversion/parse* => it is validation
-                return True
+                # `map_err(|_| Status::invalid_argument(..))` on a failed library conversion (TryFromIntError, ..) is
+                # validation happening *here*.  A closure that converts one of the crate's own error enums (the
+                # result of an effectful operation) merely translates a rejection decided inside that operation;
+                # where that decision sits relative to the operation's effects is R10.3's subject.
+                ptys = [bi.body.local_ty(i) for i in range(2, bi.body.arg_count + 1)]
+                if not any(t.startswith("crate::") and t.endswith("Error") for t in ptys):
+                    return True
             if (c.local or c.res_local):
                 dst = self.prog.qual(bi.body, c.target)
                 if self.has_invalid_argument(dst):
